@@ -339,7 +339,7 @@ class SimpleDictDocument(DictDocument):
                 else:
                     path_cls = k[-2]
                     logger.debug("\t\tdo validate_freq: %r", k)
-                    self._check_freq_dict(path_cls, d)
+                    self._check_freq_dict(path_cls, d, flat=True)
 
         if issubclass(cls, Array):
             # unwrap the request object
